@@ -84,6 +84,8 @@ def gen_case(rnd, want_overlap=False, clusters=False, nmax=12):
         rest = [i for i in range(n) if i not in groups[0]]
         if len(rest) >= 2 and rnd.random() < 0.6:        # a second exemption group, disjoint from the first
             groups.append(rnd.sample(rest, rnd.randint(2, min(3, len(rest)))))
+    if want_overlap and (flags & 1) and not (flags & 4) and rnd.random() < 0.3:
+        flags |= 64          # the exemption groups are declared a second time on the same layout object (after a layout with everything exempt)
     cl = []
     if clusters and n >= 4 and not (flags & 4):
         ids = list(range(n))
